@@ -302,6 +302,9 @@ class H11Protocol:
                 await self.can_read.set()
                 await self.send(Updated(idle=True))
         else:
+            # Nothing further will be served, a reader released here
+            # must not wait for another stream to complete.
+            self.closed = True
             await self.can_read.set()
             await self.send(Closed())
 
